@@ -20,6 +20,7 @@ def stepLine (r : RQ) (line : String) : RQ × String :=
     | (r', _) => (r', "bad-out")
   | ["discard"] => ((step r .discard).1, "ok")
   | ["len"] => match (step r .len).2 with | .nat n => (r, toString n) | _ => (r, "bad-out")
+  | ["q"] => (r, r.q.foldl (fun acc s => acc ++ s!" {s.seq}:{s.tag}") "q")
   | ["ready"] => match (step r .ready).2 with | .bool b => (r, toString b) | _ => (r, "bad-out")
   | _ => (r, "bad-op")
 
